@@ -321,10 +321,49 @@ Eval vm_compute in (match c with (rec, cc, en, bl, roots, al, cg) =>
                     rc, so, se = sh2(["rustc", "--edition", "2021", "-A", "warnings", "--emit", "metadata", "-o", src + ".rmeta", src], cwd=tmp, timeout=120)
                     if rc != 0:
                         ck.violation("C09-not-self-contained", "the allowlisted bindings do not compile on their own", dict(data, rustc=e2e.rustc_errors(se, 3)))
+        ns_paths(ck, bindgen, tmp)
         if graphs:
             ck.sample({"header": graphs[0][1].header(), "scenario": graphs[0][3][0][0], "expected_items": sorted(graphs[0][1].closure(graphs[0][3][0][1], graphs[0][3][0][2]))})
     finally:
         shutil.rmtree(tmp, ignore_errors=True)
+
+
+def ns_paths(ck, bindgen, tmp):
+    """C++ namespaces: every kind of item inside (nested) namespaces is selected by its namespace-qualified path and by nothing shorter —
+    including the enumerators of unnamed enums, whose allowlisting goes through the variable patterns"""
+    r = ck.rng
+    nsA, nsB = r.choice(["na", "net", "outer"]), r.choice(["inner", "detail"])
+    items = []      # (kind flag, path, identifier to look for, C++ text)
+    text = "namespace %s {\n" % nsA
+    tag = r.randrange(100, 999)
+    text += "  struct S%d { int a; };\n  typedef long T%d;\n  int f%d(int);\n  extern int v%d;\n  enum { EA%d, EB%d = 4 };\n" % ((tag,) * 6)
+    items += [("type", "%s::S%d" % (nsA, tag), "S%d" % tag), ("type", "%s::T%d" % (nsA, tag), "T%d" % tag), ("function", "%s::f%d" % (nsA, tag), "f%d" % tag),
+              ("var", "%s::v%d" % (nsA, tag), "v%d" % tag), ("var", "%s::EB%d" % (nsA, tag), "EB%d" % tag), ("item", "%s::EA%d" % (nsA, tag), "EA%d" % tag)]
+    text += "  namespace %s {\n    struct D%d { int q; };\n    enum { IP%d = 1, IQ%d };\n    int g%d(void);\n  }\n}\n" % (nsB, tag, tag, tag, tag)
+    items += [("type", "%s::%s::D%d" % (nsA, nsB, tag), "D%d" % tag), ("var", "%s::%s::IQ%d" % (nsA, nsB, tag), "IQ%d" % tag), ("function", "%s::%s::g%d" % (nsA, nsB, tag), "g%d" % tag)]
+    text += "struct G%d { int g; };\nenum { GX%d, GY%d };\nint h%d(void);\n" % ((tag,) * 4)
+    items += [("type", "G%d" % tag, "G%d" % tag), ("var", "GY%d" % tag, "GY%d" % tag), ("function", "h%d" % tag, "h%d" % tag)]
+    p = os.path.join(tmp, "nsp.hpp")
+    open(p, "w").write(text)
+
+    def defined(out, ident):
+        return re.search(r"pub (?:struct|type|fn|static(?: mut)?|const|union) (?:\w+_)?%s\b" % ident, out) is not None
+    for nsflag in ([], ["--enable-cxx-namespaces"]):
+        for kind, path, ident in items:
+            for form, pat, expect in (("qualified", path, True), ("bare", path.split("::")[-1], "::" not in path), ("suffix-only", "::".join(path.split("::")[1:]) if path.count("::") == 2 else None, False)):
+                if pat is None or (form == "bare" and "::" not in path and False):
+                    continue
+                rc, out, err = sh2([bindgen, p, "--no-layout-tests", "--allowlist-%s" % kind, pat] + nsflag + ["--", "-x", "c++", "-std=c++14"], timeout=60)
+                ck.evaluations += 1
+                ck.nontrivial.add((text, kind, pat, bool(nsflag)))
+                if rc != 0:
+                    ck.violation("C09-allowlist-run-failed", "bindgen fails with an allowlist on a header it accepts without", {"header": text, "flags": ["--allowlist-%s" % kind, pat] + nsflag, "stderr": err[-300:]})
+                    continue
+                got = defined(out, ident)
+                if got != expect:
+                    ck.violation("C09-namespace-path:%s:%s" % (kind, "not-selected" if expect else "selected-by-shorter-name"),
+                                 "an item inside a namespace is %s" % ("not selected by its namespace-qualified path" if expect else "selected by a pattern that does not match its whole path"),
+                                 {"header": text, "flags": ["--allowlist-%s" % kind, pat] + nsflag + ["--", "-x", "c++"], "item_path": path, "looked_for": ident, "emitted": re.findall(r"pub (?:struct|type|fn|static|const|mod)[^;{(]*", out)[:12]})
 
 
 def replay(ck, path):
